@@ -220,6 +220,10 @@ func checkC18(w *World, r *Report) {
 	r.Sub(checkC08, "OPEN-GUARD", "TIME-POL", "BB-BEGIN", "BB-EVERY")
 	r.Sub(checkC10, "AL-DOM", "AL-GUARD")
 	r.Sub(checkC13, "EXT-BOUND")
+	// the allowance precondition compares bidders as strings: a spelling that is stored as typed escapes it; and a
+	// vesting schedule is accepted exactly when its release times increase and lie after the end time
+	checkAddrCanon(w, r, tm)
+	r.Sub(func(w *World, r *Report) { checkC01(w, r) }, "VEST-DISTINCT")
 	// "sufficient funds": the amount a message must be able to pay is the amount its record requires
 	r.Sub(func(w *World, r *Report) { checkC01(w, r) }, "CREDIT-RECORD", "PAIR-RESERVE")
 	r.Sub(checkC04, "RD-SIB")
